@@ -48,6 +48,10 @@ func newEntry(key, value []byte, valueType ValueType, seqNum uint64) *entry {
 	if value != nil {
 		valueCopy = make([]byte, len(value))
 		copy(valueCopy, value)
+	} else if valueType == TypeValue {
+		// A put of a nil slice stores the empty value: nil is how readers
+		// of the memtable recognise a deletion marker
+		valueCopy = []byte{}
 	}
 
 	return &entry{
